@@ -735,6 +735,11 @@ func (v *Protocol) onPacketWriten(m *Message, pkt Packet) (err error) {
 }
 
 func (v *Protocol) onMessageArrivated(m *Message) (err error) {
+	// No message yet, when only got some chunks of it.
+	if m == nil {
+		return
+	}
+
 	var pkt Packet
 	switch m.MessageType {
 	case MessageTypeSetChunkSize, MessageTypeUserControl, MessageTypeWindowAcknowledgementSize:
